@@ -250,6 +250,14 @@ def inputs(ctx):
             for lang in (None, d2):
                 ins.append({"id": "m%d" % n, "k": "vttpos", "groups": groups, "cap": cap, "lang": lang})
                 n += 1
+    # two and three captions that hold the very same layout objects (padding included), at node,
+    # caption and language level
+    for d in [g for g in grid if g.get("p") and g.get("o")][: (12 if ctx.quick else 200)]:
+        for where in ("node", "cap", "lang"):
+            for rep in (2, 3):
+                ins.append({"id": "rp%d" % n, "k": "vttpos", "groups": [d if where == "node" else None],
+                            "cap": d if where == "cap" else None, "lang": d if where == "lang" else None, "repeat": rep})
+                n += 1
     # every behaviour of the grouping model (MC_Groups), replayed into the real writer
     conc = {"none": None, "a": d1, "b": d2, "c": d3}
     for k, c in enumerate(ctx._groups):
@@ -370,8 +378,22 @@ def execute(inp):
                         {"s": 1000000, "e": 2000000, "layout": inp["cap"], "nodes": nodes}]}]}))
             except Exception:
                 pass
+        if inp.get("repeat"):
+            # the caption once more (later in time) with the very same layout objects: what the writer
+            # worked out for the first must not have changed them (the LAST caption's cues are judged)
+            from pycaption import Caption
+            lst = cs.get_captions("en-US")
+            c0 = lst[0]
+            for j in range(1, inp["repeat"]):
+                nn = [CaptionNode.create_text(x.content, layout_info=x.layout_info) if x.type_ == CaptionNode.TEXT
+                      else CaptionNode.create_break(layout_info=x.layout_info) for x in c0.nodes]
+                lst.append(Caption(c0.start + j * 2000000, c0.end + j * 2000000, nn, layout_info=c0.layout_info))
         out = pycaption.WebVTTWriter(fit_to_screen=False).write(cs)
         ok, cues = scan.scan_webvtt(out)
+        if inp.get("repeat"):
+            timed = [c for c in cues if c["timing"] is not None]
+            last = scan.vtt_fields(timed[-1]["timing"]) if timed else None
+            cues = [c for c in timed if tuple((scan.vtt_fields(c["timing"]) or (None, None))[:2]) == tuple(last[:2])] if last else cues
         first = None
         for c in cues:
             if c["timing"] is None:
